@@ -103,6 +103,17 @@ pub fn m_aeskeygenassist<const IMM8: i32>(a: __m128i) -> __m128i {
     from_u(u128::from_le_bytes(o))
 }
 
+// ---- fully concrete intrinsic models (C17: the round functions themselves are the subject, nothing is abstracted)
+pub fn c_aesenc(a: __m128i, round_key: __m128i) -> __m128i {
+    from_u(c_enc(to_u(a)) ^ to_u(round_key))
+}
+pub fn c_aesdec(a: __m128i, round_key: __m128i) -> __m128i {
+    from_u(c_dec(to_u(a)) ^ to_u(round_key))
+}
+pub fn c_aesimc(a: __m128i) -> __m128i {
+    from_u(c_imc(to_u(a)))
+}
+
 // ---- CPUID model: every leaf answers with the same register pattern, chosen by the harness before the first use.
 // 0xFFFF_FFFF = every feature bit set (AES-NI + SSE2 + OS support present) -> intrinsics arm;
 // 0 = nothing present -> software arm.  (cpufeatures ANDs specific bits of leaf 1 / 7 and XGETBV.)
